@@ -125,13 +125,13 @@ class Ctx:
         ent = self.violations.setdefault(key, [0, []])
         ent[0] += 1
         if len(ent[1]) < MAX_WITNESSES_PER_KEY:
-            ent[1].append({'case': jsonable(case), 'detail': jsonable(detail)})
+            ent[1].append({'case': jsonable(case), 'detail': jsonable(detail), 'where': {'shard': self.shard, 'nshards': self.nshards}})
         else:
             # keep the smallest witnesses
             size = len(json.dumps(jsonable(case), default=repr))
             worst = max(range(len(ent[1])), key=lambda i: len(json.dumps(ent[1][i]['case'], default=repr)))
             if size < len(json.dumps(ent[1][worst]['case'], default=repr)):
-                ent[1][worst] = {'case': jsonable(case), 'detail': jsonable(detail)}
+                ent[1][worst] = {'case': jsonable(case), 'detail': jsonable(detail), 'where': {'shard': self.shard, 'nshards': self.nshards}}
 
     def inconclusive(self, reason):
         if reason not in self.inconclusive_reasons:
